@@ -350,7 +350,10 @@ def true_quantities(o, x):
     Ax = M @ x
     res = Ax if b is None else Ax - b
     E = 0.5 * np.real(np.vdot(x, Ax)) - (0.0 if b is None else np.real(np.vdot(b, x)))
-    scale = float(np.linalg.norm(M, 2) * np.linalg.norm(x) + (0.0 if b is None else np.linalg.norm(b)) + 1e-300)
+    # rounding errors of a run are relative to the largest vectors it handled: include the start point
+    x0 = np.array([complex(*t) for t in sp["x0"]]) if cplx else np.array(sp["x0"], dtype=np.float64)
+    scale = float(np.linalg.norm(M, 2) * max(np.linalg.norm(x), np.linalg.norm(x0))
+                  + (0.0 if b is None else np.linalg.norm(b)) + 1e-300)
     return res, float(E), scale
 
 
@@ -370,7 +373,8 @@ def _cg_oracle(o):
     res, E, scale = true_quantities(o, x)
     if np.linalg.norm(o["grad"] - res) > 1e-8 * scale:
         return "energy.gradient differs from A x - b by %.3g" % float(np.linalg.norm(o["grad"] - res))
-    escale = scale * (np.linalg.norm(x) + 1e-300) + abs(E)
+    x0n = float(np.linalg.norm(np.array([complex(*t) for t in sp["x0"]]) if sp.get("complex") else np.array(sp["x0"], dtype=np.float64)))
+    escale = scale * (max(float(np.linalg.norm(x)), x0n) + 1e-300) + abs(E)
     if abs(o["value"] - E) > 1e-8 * escale + 1e-300:
         return "energy.value %r differs from 1/2 x^H A x - Re b^H x = %r" % (o["value"], E)
     st = o["status"]
